@@ -129,7 +129,7 @@ def toProc (o : Out) : ProcOut :=
   match o.res with
   | .verdict b => { verdict := b, err := none, debug := o.dbg, calls := o.calls }
   | .fail e => { verdict := false, err := some e, debug := o.dbg, calls := o.calls }
-  | .panic p => { verdict := false, err := some (.panic p), debug := none, calls := o.calls }
+  | .panic p => { verdict := false, err := some (.panic p), debug := o.dbg, calls := o.calls }
 
 /-- leaves of a rule, left to right -/
 def leaves : Tree → List Tree
